@@ -30,13 +30,17 @@ pub fn check() -> Check {
             if sub == super::shapes::SUB {
                 return super::shapes::replay(case, vmodel::sinkkinds::Diff::Flush);
             }
+            if sub == "flush-after-fault" {
+                return replay_after_fault(case);
+            }
             replay_lockstep(sub, case, FLAGS)
         },
         floor_quick: 2_000,
         floor_thorough: 20_000,
         rule: "Random sessions as in C01/C06/C13 (typing, editing, recall, completion, Enter with handler output, help, parse errors of derived commands, Cli::write, set_prompt, construction through the builder and through Cli::new) on a recording sink that counts bytes written since the last flush, with short writes on and off. \
                After every API call that returns Ok the counter must be 0. Non-trivial = the call produced at least two sink writes; distinct by (kind of call, bytes written). Evaluations count every API call (input byte, application write, prompt change) that was followed by the oracle, plus one per session; a coverage-guided campaign (libFuzzer + ASan, 16 processes, same oracle inside the target) searches the same session space and what it keeps is re-run and classified here. \
-               Sink kinds: the same session strategies on a zero-sized sink (`struct Uart;`, state in a thread-local), a 512-byte over-aligned sink and `&mut` of a sink, with the same invariant after construction and after every call (sub `api-shapes`; also `[u8; N]`, `&mut [u8]` and the builder's default buffers, other builder call orders).",
+               Sink kinds: the same session strategies on a zero-sized sink (`struct Uart;`, state in a thread-local), a 512-byte over-aligned sink and `&mut` of a sink, with the same invariant after construction and after every call (sub `api-shapes`; also `[u8; N]`, `&mut [u8]` and the builder's default buffers, other builder call orders). \
+               After a failure: the same sessions with one sink call failing (once, or until the failing call has returned); every later call that returns Ok and wrote something must have flushed it - what a failed call left behind is owed by nobody, what a later call writes on its behalf is (sub `flush-after-fault`).",
         assumptions: &["the sink never returns Ok(0) for a non-empty buffer (that would violate the embedded_io::Write contract)"],
         ..DEFAULT
     }
@@ -64,4 +68,102 @@ fn run_shard(ctx: &ShardCtx) {
     fuzzdrv::replay_lock_corpus(ctx, "C15", "flush", FLAGS);
     // the same sessions on other shapes of the API (sink types, buffer kinds, builder orders): flushed on every one of them
     super::shapes::stage(ctx, ctx.tier.pick(150_000, 2_000_000), opts(ctx.tier), SETS, vmodel::sinkkinds::Diff::Flush);
+    // sessions in which one sink call fails: the calls that succeed afterwards still owe a flush for everything they write
+    {
+        use proptest::prelude::*;
+        let strat = (vmodel::lockstep::case_strategy(opts(ctx.tier), SETS), any::<u16>(), any::<bool>(), 0u8..18);
+        let n = std::cell::RefCell::new(0u64);
+        ctx.run_prop(
+            "flush-after-fault",
+            ctx.tier.pick(400_000, 4_000_000),
+            strat,
+            |(c, k, p, kd)| after_fault_json(c, *k, *p, *kd),
+            |(c, k, p, kd)| match vmodel::with_set!(c.cfg.set.as_str(), after_fault(c, *k, *p, *kd)) {
+                Ok(nt) => {
+                    if nt && !*ctx.stopped.borrow() {
+                        *n.borrow_mut() += 1;
+                    }
+                    Ok(())
+                }
+                Err((e, o)) => Err(vmodel::engine::Failure::new("flush-after-fault", Value::Null, e, o)),
+            },
+        );
+        ctx.class_n("after a sink failure: sessions with output from later calls", *n.borrow());
+    }
+}
+
+fn after_fault_json(c: &vmodel::lockstep::Case, k: u16, permanent: bool, kind: u8) -> Value {
+    serde_json::json!({"cfg": c.cfg, "ops": c.ops, "fault_at": k, "permanent": permanent, "kind": kind})
+}
+
+/// One sink call fails (`k` scaled to the number of sink calls of the clean run; `permanent`: every call until the failing
+/// API call has returned). Nothing is asked of the failing call. Every later API call that returns Ok and wrote bytes must have
+/// flushed during the call, with nothing written after its last flush.
+fn after_fault<S: vmodel::session::CmdSet>(c: &vmodel::lockstep::Case, k: u16, permanent: bool, kind: u8) -> Result<bool, (String, String)> {
+    use super::c14::{steps_of, Step};
+    use vmodel::session::Sess;
+    use vmodel::sink::Fault;
+    let steps = steps_of(&c.cfg, &c.ops);
+    let run = |s: &mut Sess<S>, st: &Step| match st {
+        Step::Byte(b, _) => s.byte(*b),
+        Step::Write(calls, _) => s.write(calls),
+        Step::SetPrompt(p, _) => s.set_prompt(*p),
+    };
+    // clean run: number of sink calls
+    let total = {
+        let (s, st) = Sess::<S>::new(&c.cfg, None);
+        let Ok(mut s) = s else { return Ok(false) };
+        for stp in &steps {
+            if run(&mut s, stp).is_err() {
+                return Ok(false);
+            }
+        }
+        let n = st.borrow().calls;
+        n
+    };
+    if total == 0 {
+        return Ok(false);
+    }
+    let call = (k as usize * total) >> 16;
+    let (s, st) = Sess::<S>::new(&c.cfg, Some(Fault { call, permanent, outage: 0, kind }));
+    let Ok(mut s) = s else { return Ok(false) };
+    let mut failed = false;
+    let mut later_output = false;
+    for (i, stp) in steps.iter().enumerate() {
+        let (c0, w0, len0) = {
+            let b = st.borrow();
+            (b.calls, b.write_calls, b.bytes.len())
+        };
+        let r = run(&mut s, stp);
+        if r.is_err() {
+            failed = true;
+            st.borrow_mut().repair();
+            continue;
+        }
+        if !failed {
+            continue;
+        }
+        let b = st.borrow();
+        let wrote = b.bytes.len() - len0;
+        let flushes = (b.calls - c0) - (b.write_calls - w0);
+        if wrote > 0 {
+            later_output = true;
+            if flushes == 0 || b.unflushed != 0 {
+                return Err((
+                    format!("step #{} ({:?}) after the sink failure at call {}: returns Ok, so the {} bytes it wrote have been flushed", i, stp, call, wrote),
+                    format!("{} flush call(s) during the call, {} bytes written after the last flush", flushes, b.unflushed),
+                ));
+            }
+        }
+    }
+    Ok(failed && later_output)
+}
+
+fn replay_after_fault(case: &Value) -> Verdict {
+    let fail = |e: String, o: String| vmodel::engine::Failure::new("flush-after-fault", case.clone(), e, o);
+    let c = vmodel::lockstep::case_from_json(case).map_err(|e| fail("a well-formed case".into(), e))?;
+    let k = case["fault_at"].as_u64().unwrap_or(0) as u16;
+    let p = case["permanent"].as_bool().unwrap_or(false);
+    let kd = case["kind"].as_u64().unwrap_or(0) as u8;
+    vmodel::with_set!(c.cfg.set.as_str(), after_fault(&c, k, p, kd)).map(|_| ()).map_err(|(e, o)| fail(e, o))
 }
